@@ -75,8 +75,9 @@ func c18Run(c fw.Case, env *fw.Env) fw.Result {
 		}
 	}
 	stuck := 0
-	for _, f := range plans {
-		sc := scen.Scenario{Client: "reconnect", Cfg: scen.BrokerCfg{Method: "A", Session: "keep"}, Steps: w.Steps, Pre: w.Pre, Faults: f, RespMs: p.Resp, WaitBaseMs: 1, WaitMaxMs: 2, TimeoutMs: 40}
+	for pi, f := range plans {
+		// the error a transport returns after the library's own Close differs between transports: net.Pipe, TCP, memnet's own
+		sc := scen.Scenario{Client: "reconnect", Cfg: scen.BrokerCfg{Method: "A", Session: "keep"}, Steps: w.Steps, Pre: w.Pre, Faults: f, RespMs: p.Resp, WaitBaseMs: 1, WaitMaxMs: 2, TimeoutMs: 40, CloseStyle: []string{"pipe", "net", ""}[pi%3], CloseLinger: []int{0, 0, 3}[(pi/3)%3]}
 		run := scen.Exec(&sc)
 		r.Evals++
 		a := scen.Analyse(run)
